@@ -355,6 +355,41 @@ func runC13(c *core.Ctx) {
 			c13Walk(cs, e.B, t, "own")
 		}
 	})
+	// (1c) chunks announcing 64 KiB and more of delta octets in a packet that declares far less
+	c.Section("announced-overflow", c.N(2000, 60000), func(cs *core.Case) {
+		r := cs.R
+		cnt := 32769 + r.Intn(32767)
+		sym := r.Pick(1, 2, 2, 2)
+		chunks := (cnt + 8190) / 8191
+		wrapped := cnt * sym % 65536
+		n := 20 + 2*chunks + wrapped + r.Pick(0, 0, 1, 2, 3, 4, 64)
+		n += (4 - n%4) % 4
+		if n > 65532 {
+			n = 65532
+		}
+		spare := r.Pick(0, 0, 200000)
+		backing := make([]byte, n+spare)
+		in := backing[:n]
+		copy(in[4:20], r.Bytes(16))
+		for i := 0; i < chunks; i++ {
+			w := sym<<13 | 0x1FFF
+			in[20+2*i], in[21+2*i] = byte(w>>8), byte(w)
+		}
+		in[0], in[1] = 0x8F, 205
+		gen.FitLength(in)
+		in[14], in[15] = byte(cnt>>8), byte(cnt)
+		got, derr, pan := gUnmarshalOwn(gen.TWCC, in)
+		cs.Eval(1)
+		cs.Distinct(core.Digest(in[:64], []byte{byte(n >> 8), byte(n), byte(spare >> 16)}))
+		cs.Count("announced-overflow")
+		if pan != "" {
+			cs.Fail("panic/Unmarshal", core.W{"status_count": cnt, "symbol": sym, "input_len": n, "spare_capacity": spare, "input_head_hex": mon.Hex(in, 48), "panic": pan})
+			return
+		}
+		if derr == nil {
+			c13Walk(cs, in, got.(*rtcp.TransportLayerCC), "own")
+		}
+	})
 	// (2) arbitrary accepted octets: mutants
 	c.Section("mutants", c.N(500000, 90000000), func(cs *core.Case) {
 		r := cs.R
